@@ -32,6 +32,7 @@ enum Op {
     Call(usize),      // handle slot
     DropH(usize),     // handle slot
     DropHThread(usize),
+    IntoFunc(usize),  // handle slot: `into_func()`, the slot then holds the closure
     DropP(usize),
     DropRt,
 }
@@ -53,12 +54,14 @@ struct Model {
     modules: Vec<MModule>,          // all modules ever, dead ones stay (index = module id)
     pkgs: Vec<Option<usize>>,       // slot -> module
     handles: Vec<Option<usize>>,    // slot -> module
+    /// the slot holds the closure made by `into_func` (callable, droppable, not clonable)
+    closure: Vec<bool>,
     dead_modules: u64,
 }
 
 impl Model {
     fn new() -> Model {
-        Model { pkgs: vec![None; MAX_PKGS], handles: vec![None; MAX_HANDLES], ..Default::default() }
+        Model { pkgs: vec![None; MAX_PKGS], handles: vec![None; MAX_HANDLES], closure: vec![false; MAX_HANDLES], ..Default::default() }
     }
     fn module_alive(&self, m: usize) -> bool {
         self.modules[m].pkg_alive || self.modules[m].handles > 0
@@ -85,12 +88,15 @@ impl Model {
         }
         for (i, h) in self.handles.iter().enumerate() {
             if h.is_some() {
-                if free_handle {
-                    v.push(Op::CloneH(i));
-                }
                 v.push(Op::Call(i));
                 v.push(Op::DropH(i));
-                v.push(Op::DropHThread(i));
+                if !self.closure[i] {
+                    if free_handle {
+                        v.push(Op::CloneH(i));
+                    }
+                    v.push(Op::DropHThread(i));
+                    v.push(Op::IntoFunc(i));
+                }
             }
         }
         v
@@ -125,7 +131,9 @@ impl Model {
                 self.modules[m].handles += 1;
             }
             Op::Call(_) => {}
+            Op::IntoFunc(h) => self.closure[h] = true,
             Op::DropH(h) | Op::DropHThread(h) => {
+                self.closure[h] = false;
                 let m = self.handles[h].take().unwrap();
                 self.modules[m].handles -= 1;
                 self.release(m);
@@ -205,9 +213,14 @@ impl Model {
             s += ",";
         }
         s += "|";
-        for h in &self.handles {
+        for (i, h) in self.handles.iter().enumerate() {
             match h {
-                Some(m) => describe(*m, &mut s, &mut mod_names, &mut gen_names),
+                Some(m) => {
+                    describe(*m, &mut s, &mut mod_names, &mut gen_names);
+                    if self.closure[i] {
+                        s += "c";
+                    }
+                }
                 None => s += "_",
             }
             s += ",";
@@ -266,10 +279,25 @@ fn f(x: u64) -> u64 { helper(x) + KI + cap() + cap2() - 801 + RC.payload() + KT.
 
 type H = TypedFunc<NoCtx, fn(u64) -> u64>;
 
+/// a handle slot: the handle itself or the closure `into_func` made of it
+enum Slot {
+    H(H),
+    F(Box<dyn Fn(u64) -> u64>),
+}
+
+impl Slot {
+    fn call(&self, x: u64) -> u64 {
+        match self {
+            Slot::H(h) => h.call(x),
+            Slot::F(f) => f(x),
+        }
+    }
+}
+
 struct Real {
     rt: Option<Runtime<NoCtx>>,
     pkgs: Vec<Option<Package<NoCtx>>>,
-    handles: Vec<Option<H>>,
+    handles: Vec<Option<Slot>>,
 }
 
 thread_local! {
@@ -349,13 +377,16 @@ fn replay(hist: &[Op], last: Op) -> Result<String, (String, Value)> {
             Op::Get(p) => {
                 let slot = real.handles.iter().position(|h| h.is_none()).unwrap();
                 match real.pkgs[p].as_mut().unwrap().get_function::<fn(u64) -> u64>("f") {
-                    Ok(h) => real.handles[slot] = Some(h),
+                    Ok(h) => real.handles[slot] = Some(Slot::H(h)),
                     Err(e) => return Err(("get_function".into(), json!(e.to_string()))),
                 }
             }
             Op::CloneH(h) => {
                 let slot = real.handles.iter().position(|h| h.is_none()).unwrap();
-                real.handles[slot] = real.handles[h].clone();
+                real.handles[slot] = match real.handles[h].as_ref().unwrap() {
+                    Slot::H(x) => Some(Slot::H(x.clone())),
+                    Slot::F(_) => unreachable!("closures are not cloned"),
+                };
             }
             Op::Call(h) => {
                 for x in [0u64, 5] {
@@ -371,8 +402,12 @@ fn replay(hist: &[Op], last: Op) -> Result<String, (String, Value)> {
                 }
             }
             Op::DropH(h) => drop(real.handles[h].take()),
+            Op::IntoFunc(h) => {
+                let Some(Slot::H(x)) = real.handles[h].take() else { unreachable!("into_func of a closure") };
+                real.handles[h] = Some(Slot::F(Box::new(x.into_func())));
+            }
             Op::DropHThread(h) => {
-                let hd = real.handles[h].take();
+                let Some(Slot::H(hd)) = real.handles[h].take() else { unreachable!("closures stay on their thread") };
                 std::thread::spawn(move || drop(hd)).join().map_err(|_| ("panic-on-thread".to_string(), json!(null)))?;
             }
             Op::DropP(p) => drop(real.pkgs[p].take()),
@@ -491,7 +526,7 @@ impl Check for C11 {
     }
     fn meta(&self, cfg: &Cfg) -> Meta {
         Meta {
-            rule: "breadth-first search over all operation sequences up to the depth bound, at most 1 live runtime, 2 live packages, 3 live handles; states deduplicated by the model key (runtime generation alive?, per module: version, generation, package alive?, handle count, slot assignment); every transition is executed on fresh real objects by replaying the representative history; non-trivial = a drop happens while something sharing a module or runtime generation stays alive".into(),
+            rule: "breadth-first search over all operation sequences (new runtime, compile v1|v2, get, clone, call, into_func, drop handle here / on another thread, drop package, drop runtime) up to the depth bound, at most 1 live runtime, 2 live packages, 3 live handles; states deduplicated by the model key (runtime generation alive?, per module: version, generation, package alive?, handle count, slot assignment, which slots hold an `into_func` closure); every transition is executed on fresh real objects by replaying the representative history; non-trivial = a drop happens while something sharing a module or runtime generation stays alive".into(),
             assumptions: vec![
                 "equal model keys have equal futures: observations depend only on which modules / runtime generations are alive and what they contain".into(),
             ],
